@@ -1,6 +1,7 @@
 from harness import evprops, hcommon, hprop_run, mixed
 
 PROP = "C10"
+EXTRA_PROPS = ("C10b",)     # whole-FSM: no AssertionError / AttributeError / TypeError / KeyError from any reachable state
 FAULT_TABLES = False
 DEFAULT_ONLY = True
 
@@ -30,7 +31,7 @@ def run(tier, seed):
     if PROP == "C14":
         rc_extra = evprops.set_handler_refuses()
     hc = hcommon.HandlerCheck(PROP, tier, seed)
-    hc.gate()
+    hc.gate(EXTRA_PROPS)
     hc.run_corpus(lambda kind: evprops.oracle_c10)
     for text in rc_extra:
         hc.v.violation("oracle: C14 " + text, {"api": "DefaultFaultHandlerBase.set_handler"})
